@@ -14,7 +14,6 @@ import (
 
 	"github.com/pokt-network/posmint/crypto"
 	sdk "github.com/pokt-network/posmint/types"
-	"github.com/pokt-network/posmint/x/auth"
 	authTypes "github.com/pokt-network/posmint/x/auth/types"
 	govTypes "github.com/pokt-network/posmint/x/gov/types"
 	posTypes "github.com/pokt-network/posmint/x/pos/types"
@@ -219,8 +218,8 @@ const (
 func c03cfg(mult string) chain.Config {
 	cfg := baseCfg()
 	big := int64(1000 * min)
-	cfg.Accs = []chain.GenAcc{{Key: 0, Balance: 5 * min}, {Key: 1, Balance: 5 * min}, {Key: 2, Balance: big}, {Key: 3, Balance: big}, {Key: 4, Balance: big},
-		{Key: 100, Balance: big}, {Key: 101, Balance: big}, {Key: kBalLow, Balance: 9999}, {Key: kBalFee, Balance: 10000}, {Key: kBalEnough, Balance: 11000}}
+	cfg.Accs = []chain.GenAcc{{Key: 0, Balance: 5 * min}, {Key: 1, Balance: 5 * min}, {Key: 2, Balance: big, Abc: 1000}, {Key: 3, Balance: big}, {Key: 4, Balance: big},
+		{Key: 100, Balance: big, Abc: 1000}, {Key: 101, Balance: big}, {Key: kBalLow, Balance: 9999}, {Key: kBalFee, Balance: 10000}, {Key: kBalEnough, Balance: 11000}}
 	cfg.Owner, cfg.DAOOwner = 2, 2
 	switch mult {
 	case "type3":
@@ -293,7 +292,7 @@ func c03cases() []c03case {
 	for _, mult := range []string{"default1", "type3", "default0"} {
 		for _, m := range c03msgKinds {
 			for _, s := range signers {
-				for _, f := range []string{"req-1", "req", "req+1", "none"} {
+				for _, f := range []string{"req-1", "req", "req+1", "none", "other-denom-only", "other-denom+1upokt", "other-denom+req"} {
 					c := base
 					c.Name, c.Msg, c.Signer, c.Fee, c.FeeMult = "C", m, s.kind, f, mult
 					cs = append(cs, c)
@@ -383,6 +382,17 @@ func (e *c03env) build(c c03case, view chain.View) c03built {
 	if feeAmt > 0 {
 		fee = sdk.NewCoins(sdk.NewCoin(chain.Denom, sdk.NewInt(feeAmt)))
 	}
+	switch c.Fee {
+	case "other-denom-only":
+		fee = sdk.NewCoins(sdk.NewCoin("abc", sdk.NewInt(1)))
+	case "other-denom+1upokt":
+		fee = sdk.NewCoins(sdk.NewCoin("abc", sdk.NewInt(1)), sdk.NewCoin(chain.Denom, sdk.NewInt(1)))
+	case "other-denom+req":
+		fee = sdk.NewCoins(sdk.NewCoin("abc", sdk.NewInt(1)))
+		if required > 0 {
+			fee = fee.Add(sdk.NewCoins(sdk.NewCoin(chain.Denom, sdk.NewInt(required))))
+		}
+	}
 	memo := ""
 	switch c.Memo {
 	case "max":
@@ -392,14 +402,14 @@ func (e *c03env) build(c c03case, view chain.View) c03built {
 	}
 	e.entropy++
 	entropy := e.entropy
+	if e.entropy%2 == 0 {
+		entropy = 0x5555555555550000 + e.entropy*4 // beyond 2^53: a +1 mutation is invisible to float64 rounding
+	}
 	chainID := chain.ChainID
 	if c.Mut == "chain-id" {
 		chainID = "other-chain"
 	}
-	sb, err := auth.StdSignBytes(chainID, entropy, fee, msg, memo)
-	if err != nil {
-		panic(err)
-	}
+	sb := chain.CanonicalSignBytes(chainID, entropy, fee, msg, memo)
 	sig, pkUsed := signFn(variant, sb)
 	// post-signing mutations
 	switch c.Mut {
@@ -468,7 +478,7 @@ func (e *c03env) build(c c03case, view chain.View) c03built {
 			pkVerify = pkOwn
 		}
 	}
-	realSB, _ := auth.StdSignBytes(chain.ChainID, entropy, fee, msg, memo)
+	realSB := chain.CanonicalSignBytes(chain.ChainID, entropy, fee, msg, memo)
 	reqCoins := required
 	switch {
 	case len(sig) == 0:
@@ -491,7 +501,7 @@ func (e *c03env) build(c c03case, view chain.View) c03built {
 		out.why = "signer account unknown"
 	case !fee.IsValid() && !fee.Empty():
 		out.why = "invalid fee"
-	case bal.LT(fee.AmountOf(chain.Denom)) || len(fee) > 0 && fee[0].Denom != chain.Denom:
+	case bal.LT(fee.AmountOf(chain.Denom)) || fee.AmountOf("abc").IsPositive() && !(c.Acct == "" && (s.kind == "ed25519" || s.kind == "secp256k1")):
 		out.why = "balance below fee"
 	default:
 		out.expect = true
@@ -699,7 +709,7 @@ func C03(tier string) int {
 	run.Set("rule", "union of complete sub-products: A message kind(7) x signer account kind(ed25519, secp256k1, 2-key multisig, nested multisig) x signing variant (own / other key same type / other type / foreign, swapped, short, duplicate, extra component / other multisig / single key) x key source (attached / from state); A2 unknown and key-less accounts; B every post-signing mutation (chain id, message field, fee amount, fee denom, memo, entropy, signature bit flip, truncation, empty) x message kind x signer kind; C fee (req-1, req, req+1, none) x fee-multiplier setting (default 1, per-type 3, default 0) x message kind x signer kind; D balance grid; E memo bounds; F replays (after commit: judged; same block: recorded). distinct_nontrivial = distinct outcome classes (accepted / rejected-by-reason) observed")
 	run.Sample(c03case{Name: "A", Msg: "send", Signer: "ed25519", Variant: "other-same-type", KeySrc: "attached", Mut: "none", Fee: "req", Memo: "empty", Replay: "first", FeeMult: "default1"})
 	run.Sample(c03case{Name: "C", Msg: "send", Signer: "multisig", Variant: "own", KeySrc: "attached", Mut: "none", Fee: "req-1", Memo: "empty", Replay: "first", FeeMult: "type3"})
-	run.Assume("signature validity is decided by Tendermint's ed25519/secp256k1 primitives and the positional N-of-N rule; the sign bytes are the repository's StdSignBytes over the transaction's (possibly mutated) fields (their canonicity is C20's subject)",
+	run.Assume("signature validity is decided by Tendermint's ed25519/secp256k1 primitives and the positional N-of-N rule; signatures are made and judged over the harness's own rendering of the documented sign bytes (key-sorted JSON of chain id, entropy, fee, memo, message sign bytes), not over the repository's StdSignBytes",
 		"ante acceptance is observed through the result code and the fee-collector balance", "the tx index follows Tendermint's rule: a transaction is indexed when its block commits")
 	return run.Finish()
 }
